@@ -165,8 +165,11 @@ func forallI64(p func(k int64) bool) bool { return true }
 // Scope of C01 for one key (no collision): nothing is known about other keys with this hash, and
 // the tree slot of the key's hash — if any — points at a record of this very key.
 func noCollisionFor(bkt *Bucket, ki *KeyInfo) bool {
-	return noCollisionInfo(bkt, ki.KeyHash) && (!ghostTreeHas[bkt.htree][ki.KeyHash] ||
-		ghostLogKey(bkt.datas, posKey(ghostTreeChunk[bkt.htree][ki.KeyHash], ghostTreeOff[bkt.htree][ki.KeyHash])) == string(ki.Key))
+	return noCollisionForHash(bkt, ki.KeyHash, string(ki.Key))
+}
+func noCollisionForHash(bkt *Bucket, kh uint64, key string) bool {
+	return noCollisionInfo(bkt, kh) && (!ghostTreeHas[bkt.htree][kh] ||
+		ghostLogKey(bkt.datas, posKey(ghostTreeChunk[bkt.htree][kh], ghostTreeOff[bkt.htree][kh])) == key)
 }
 
 // Bucket.get in the no-collision scope. memOnly: the tree's metadata only. Otherwise the record the
@@ -263,5 +266,42 @@ func checkAndSetCase(bkt *Bucket, ki *KeyInfo, v *Payload) int {
 //@   timeout 20
 //@   opaque treePosOK noCollisionFor QlzD QlzVhash QlzValid
 //@   requires bktOK(bkt) && ki != nil && noCollisionFor(bkt, ki) && treePosOK(bkt.htree) && Conf != nil && len(ki.Key) <= 255
+//@   modifies *
+//@   ensures cmem.DBRL.GetData.Count == old(cmem.DBRL.GetData.Count) && cmem.DBRL.GetData.Size == old(cmem.DBRL.GetData.Size)
+
+// ---------- HStore: routing and the bucket gate (C15) ----------
+
+func kiHash(ki *KeyInfo) uint64 { return getKeyHash(ki.Key) }
+func kiBucket(ki *KeyInfo) int  { return specBucket(kiHash(ki), Conf.TreeDepth) }
+
+// the store serves Conf.NumBucket bucket slots; a READY bucket is fully set up
+func storeOK(store *HStore) bool {
+	return confTreeOK() && len(store.buckets) == Conf.NumBucket && forall(0, len(store.buckets), func(i int) bool { return store.buckets[i] != nil })
+}
+func readyBucketOK(store *HStore, ki *KeyInfo) bool {
+	b := store.buckets[kiBucket(ki)]
+	return b.State != BUCKET_STAT_READY || (bktOK(b) && noCollisionForHash(b, kiHash(ki), string(ki.Key)) && treePosOK(b.htree))
+}
+
+// Get: the key is served by the bucket named by the leading hex digits of its hash and by no
+// other; a bucket that is not READY answers a miss and nothing is read.
+//@ func (store *HStore) Get
+//@   props C15 C01 C12
+//@   ints bv
+//@   opaque treePosOK noCollisionForHash
+//@   requires ki != nil && !ki.KeyIsPath && storeOK(store) && readyBucketOK(store, ki)
+//@   modifies ki.KeyHash, ki.KeyPath, ki.KeyPathBuf, ki.BucketID, store.buckets[kiBucket(ki)].NumGet, ghostFail(), ghostClock(), cmem.DBRL.GetData.Size, cmem.DBRL.GetData.MaxSize, cmem.DBRL.GetData.Count, cmem.DBRL.GetData.MaxCount, cmem.AllocRL.Size, cmem.AllocRL.MaxSize, cmem.AllocRL.Count, cmem.AllocRL.MaxCount
+//@   ensures ki.KeyHash == kiHash(ki) && ki.BucketID == kiBucket(ki) && 0 <= ki.BucketID && ki.BucketID < Conf.NumBucket
+//@   ensures store.buckets[ki.BucketID].State != BUCKET_STAT_READY ==> payload == nil && err == nil && cmem.DBRL.GetData.Count == old(cmem.DBRL.GetData.Count) && cmem.DBRL.GetData.Size == old(cmem.DBRL.GetData.Size)
+//@   ensures payload != nil ==> store.buckets[ki.BucketID].State == BUCKET_STAT_READY && ghostTreeHas[store.buckets[ki.BucketID].htree][ki.KeyHash] && payload.Ver == ghostTreeVer[store.buckets[ki.BucketID].htree][ki.KeyHash]
+//@   ensures !memOnly && payload != nil ==> cmem.DBRL.GetData.Count == old(cmem.DBRL.GetData.Count)+1 && cmem.DBRL.GetData.Size == old(cmem.DBRL.GetData.Size)+int64(payload.Cap)
+//@   ensures memOnly || payload == nil ==> cmem.DBRL.GetData.Count == old(cmem.DBRL.GetData.Count) && cmem.DBRL.GetData.Size == old(cmem.DBRL.GetData.Size)
+
+// Incr: same gate; a bucket that is not READY returns 0 and touches nothing.
+//@ func (store *HStore) Incr
+//@   props C15 C12
+//@   ints bv
+//@   opaque treePosOK noCollisionForHash
+//@   requires ki != nil && !ki.KeyIsPath && storeOK(store) && readyBucketOK(store, ki) && len(ki.Key) <= 255
 //@   modifies *
 //@   ensures cmem.DBRL.GetData.Count == old(cmem.DBRL.GetData.Count) && cmem.DBRL.GetData.Size == old(cmem.DBRL.GetData.Size)
